@@ -70,10 +70,11 @@ def gen_history(r, large=False):
                 kind = r.choice(["element", "order"])
                 l = c["genes"]
                 if kind == "element":
-                    i = r.choice([len(l) - 1, len(l) - 2, r.randrange(len(l)), (len(l) // 1024) * 1024, min(len(l) - 1, (len(l) // 512) * 512 + 1), len(l) - 1 - r.randrange(40)])
+                    i = r.choice([len(l) - 1, len(l) - 2, r.randrange(len(l)), (len(l) // 1024) * 1024, (len(l) // 512) * 512 + 1, len(l) - 1 - r.randrange(40)])
+                    i = max(0, min(len(l) - 1, i))
                     l[i] = l[i] + "x"
                 else:
-                    i = len(l) - 2 - r.randrange(20); l[i], l[i + 1] = l[i + 1], l[i]
+                    i = max(0, len(l) - 2 - r.randrange(20)); l[i], l[i + 1] = l[i + 1], l[i]
                 tag = "genes:%s_large" % kind
             ops.append(["open", p, c]); tags.append(tag)
     return ops, tags
